@@ -33,7 +33,7 @@ theorem can_exec (hS : Struct reg s) (hO : Orig s) :
   all_goals grind [Pc.wonSrc, Pc.copyVal, Pc.owner, justified_self, justified_anc, justified_child, justified_upd_wins, justified_upd_wins_self, justified_upd_par]
 
 theorem can_begin (hS : Struct reg s) (hO : Orig s) (hi : s.pc t = .idle) :
-    ∀ x, (begin reg s t).can x = true → Justified (begin reg s t).par (begin reg s t).wins x := by
+    ∀ x, (begin cfg reg s t).can x = true → Justified (begin cfg reg s t).par (begin cfg reg s t).wins x := by
   have g0 := hO.can
   have g1 := hO.won
   have g1t := hO.won t
